@@ -91,8 +91,16 @@ type fileID struct {
 	cookie uint32
 }
 
-func (f fileID) keyCookie() string { return fmt.Sprintf("%x%08x", f.key, f.cookie) }
-func (f fileID) String() string    { return fmt.Sprintf("%d,%s", f.vid, f.keyCookie()) }
+// keyCookie is the canonical form the master hands out: hex of the 8 key bytes and
+// 4 cookie bytes with leading zero bytes removed.
+func (f fileID) keyCookie() string {
+	s := fmt.Sprintf("%016x%08x", f.key, f.cookie)
+	for len(s) > 10 && strings.HasPrefix(s, "00") {
+		s = s[2:]
+	}
+	return s
+}
+func (f fileID) String() string { return fmt.Sprintf("%d,%s", f.vid, f.keyCookie()) }
 
 func isHex(s string) bool {
 	for _, c := range s {
@@ -449,7 +457,7 @@ func (w *world) buildPath(t *rapid.T, form string, ti int) (path, cmp string, su
 	case "padded-vid":
 		return "/0" + vid + "," + kc, "0" + vid + "," + kc, -1, ti
 	case "padded-fid":
-		return "/" + vid + ",0" + kc, vid + ",0" + kc, -1, ti
+		return "/" + vid + ",00" + kc, vid + ",00" + kc, -1, ti
 	case "upper-fid":
 		return "/" + vid + "," + strings.ToUpper(kc), vid + "," + strings.ToUpper(kc), -1, ti
 	case "comma-name":
